@@ -83,6 +83,21 @@ def register(reg):
                                                               ' or map_get("ucat", u_1) != self.cat or map_get("ucat", u_2) != self.cat'},
                      note='category object holds exactly the units whose category it is (checked exhaustively over the table)'),
             verify=False)
+    # the same method VERIFIED from its real body (with unitConvertor) against the category's own unit table, an abstract finite
+    # map unit id -> UnitConvert: the result is the LIS conversion with the two table entries, in this order; a unit the table
+    # does not hold is refused
+    UCCT = KRec('UnitConvertCategory', cat=Int, _unitMap=AbsMap('cunits', UC))
+    E1, E2 = 'map_rec("cunits", u_1)', 'map_rec("cunits", u_2)'
+    reg.add(Contract(LU, 'UnitConvertCategory.unitConvertor', inline=True))
+    reg.add(Contract(LU, 'UnitConvertCategory.units', {'self': UCCT}, returns=Untracked, trusted=True,
+                     note='list of the unit names of a category: only formatted into an error message'), verify=False)
+    reg.add(Contract(LU, 'UnitConvertCategory.convert', {'self': UCCT, 'v': Real, 'u_1': Int, 'u_2': Int}, returns=Real,
+                     name='UnitConvertCategory.convert[unit table]',
+                     assume=['forall_int(lambda u: implies(map_has("cunits", u), map_rec("cunits", u).mult != 0))'],
+                     raises={'ExceptionUnitsNoUnitInCategory': 'not map_has("cunits", u_1) or not map_has("cunits", u_2)'},
+                     ensures=['result == lis_conv(v, %s.mult, not is_none(%s.offs), %s.offs, %s.mult, not is_none(%s.offs), %s.offs)'
+                              % (E1, E1, E1, E2, E2, E2)],
+                     canaries=['result == v'], crosscheck=False), callable_=False)
     reg.add(Contract(
         LU, 'convert', {'v': Real, 'u_1': Int, 'u_2': Int}, returns=Real, name='LIS.Units.convert',
         globals_={'__UNIT_TO_CATEGORY_MAP': AbsMap('ucat', Int), '__UNIT_MAP': AbsMap('umap', UCC)},
@@ -104,8 +119,7 @@ def register(reg):
     reg.add(Contract(EVF, 'EngVal.dimensionless', inline=True))
     reg.add(Contract(EVF, 'EngVal.getInUnits', {'self': EV, 'theUnits': Int}, returns=Real, globals_=G_EV, raises=REFUSE,
                      ensures=['implies(theUnits == self.uom, result == self.value)'], canaries=['result == self.value'], crosscheck=False))
-    reg.add(Contract(EVF, 'EngVal.__init__', {'self': KRec('EngVal'), 'theVal': Real, 'theUom': Int}, modifies=[('self.value', Real), ('self.uom', Int)],
-                     ensures=['self.value == theVal', 'self.uom == theUom'], trusted=True, note='EngVal(value, units) stores its arguments'), verify=False)
+    reg.add(Contract(EVF, 'EngVal.__init__', inline=True))      # executed from its real body (round 1 assumed "stores its arguments")
     reg.add(Contract(EVF, 'EngVal.newEngValInUnits', {'self': EV, 'theUnits': Int}, returns=EV, globals_=G_EV, raises=REFUSE,
                      ensures=['result.uom == theUnits', 'implies(theUnits == self.uom, result.value == self.value)'],
                      canaries=['result.value == self.value'], crosscheck=False))
